@@ -26,6 +26,7 @@ func init() {
 		Quick: []ruleDef{
 			{"REP-SLICE", 10, ruleRepSlice},
 			{"REP-STACKESCAPE", 5, ruleRepStackEscape},
+			{"REP-RAWSLICE", 5, ruleRepRawSlice},
 		},
 	})
 	register(&propDef{
@@ -233,6 +234,83 @@ func ruleRepMapKeys(c *Ctx, r *R) {
 		}
 		if appends == 0 {
 			r.fail(mt.T+" append-guard", pos, mt.T+".Set never appends a new key to keys: inserted keys are not ranged")
+		}
+		// (e) a running iterator holds a snapshot of keys: its backing array must never be rewritten in place
+		for _, fn := range []string{"Set", "Delete"} {
+			fd := c.Func(mt.T + "." + fn)
+			if fd == nil {
+				continue
+			}
+			inPlace := ""
+			ast.Inspect(fd.Body, func(n ast.Node) bool {
+				switch x := n.(type) {
+				case *ast.SliceExpr:
+					if nosp(c.Src(x.X)) == "m.keys" {
+						inPlace = c.Src(x)
+					}
+				case *ast.AssignStmt:
+					for _, l := range x.Lhs {
+						if ix, ok := unparen(l).(*ast.IndexExpr); ok && nosp(c.Src(ix.X)) == "m.keys" {
+							inPlace = c.Src(l)
+						}
+					}
+				case *ast.CallExpr:
+					if c.CalleeName(x) == "builtin.copy" && len(x.Args) > 0 && strings.HasPrefix(nosp(c.Src(x.Args[0])), "m.keys") {
+						inPlace = c.Src(x)
+					}
+				}
+				return true
+			})
+			r.check(inPlace == "", mt.T+"."+fn+" keys-not-rewritten", c.Pos(fd), "keys is only appended to or replaced by a fresh slice",
+				mt.T+"."+fn+" rewrites the backing array of m.keys in place ("+inPlace+"): a range in progress iterates a snapshot that shares that array, so live keys slide under its cursor and are skipped")
+		}
+		// constructor: literal keys are de-duplicated like Set does
+		if cf := c.Func(mt.Ctor); cf != nil {
+			guarded := true
+			writes := 0
+			ast.Inspect(cf.Body, func(n ast.Node) bool {
+				as, ok := n.(*ast.AssignStmt)
+				if !ok {
+					return true
+				}
+				for i, l := range as.Lhs {
+					isKeysWrite := false
+					if ix, ok := unparen(l).(*ast.IndexExpr); ok && nosp(c.Src(ix.X)) == "m.keys" {
+						isKeysWrite = true
+					}
+					if nosp(c.Src(l)) == "m.keys" && i < len(as.Rhs) {
+						if call, ok := unparen(as.Rhs[i]).(*ast.CallExpr); ok && c.CalleeName(call) == "builtin.append" {
+							isKeysWrite = true
+						}
+					}
+					if !isKeysWrite {
+						continue
+					}
+					writes++
+					// inside an `if _, ok := m.data[k]; !ok` ?
+					g := false
+					for p := c.Parent(as); p != nil && p != ast.Node(cf); p = c.Parent(p) {
+						if ifs, ok := p.(*ast.IfStmt); ok && ifs.Init != nil && strings.Contains(nosp(c.Src(ifs.Cond)), "!") {
+							if ia, ok := ifs.Init.(*ast.AssignStmt); ok && len(ia.Rhs) == 1 && strings.HasPrefix(nosp(c.Src(ia.Rhs[0])), "m.data[") {
+								g = true
+							}
+						}
+					}
+					if !g {
+						guarded = false
+					}
+				}
+				return true
+			})
+			viaSet := false
+			ast.Inspect(cf.Body, func(n ast.Node) bool {
+				if call, ok := n.(*ast.CallExpr); ok && c.CalleeName(call) == mt.T+".Set" {
+					viaSet = true
+				}
+				return true
+			})
+			r.check(viaSet || (writes > 0 && guarded), mt.Ctor+" literal-dedupe", c.Pos(cf), "a key listed twice in a literal is recorded once",
+				mt.Ctor+" records every key of a composite literal in keys without testing whether it is already present: map[K]V{x: 1, y: 2} with x == y at run time has len 1 but a range yields the key twice")
 		}
 		// Set stores through assign with the element type
 		okStore := true
@@ -1037,5 +1115,41 @@ func ruleRepPrint(c *Ctx, r *R) {
 			return true
 		})
 		r.check(overOrder, fn+" order", c.Pos(fd), "fields rendered in declaration order (ranges Order)", fn+" does not range the Order slice: fields print in map order, not declaration order")
+	}
+}
+
+// REP-RAWSLICE: the raw constructor newSlice (which does not convert elements to
+// the element type) is called only where the elements are already typed.
+var rawSliceSites = map[string]string{
+	"NewSlice":       "after converting every element with assign(valueType)",
+	"sliceT.Slice":   "a sub-slice of data that is already typed",
+	"Value.Slice":    "the empty slice of a nil slice",
+	"Value.Append":   "nil-receiver branch: not reachable from APPEND (which handles nil itself); host values",
+	"Value.convert":  "bytes built with the Byte constructor",
+	"loadSlices":     "slices.Delete shim: a sub-range of data that is already typed",
+}
+
+func ruleRepRawSlice(c *Ctx, r *R) {
+	n := 0
+	for _, f := range c.Pkg.Syntax {
+		ast.Inspect(f, func(m ast.Node) bool {
+			call, ok := m.(*ast.CallExpr)
+			if !ok || c.CalleeName(call) != "newSlice" {
+				return true
+			}
+			n++
+			fd := c.EnclosingFunc(call)
+			name := "?"
+			if fd != nil {
+				name = c.fnName(fd)
+			}
+			why, ok := rawSliceSites[name]
+			r.check(ok, "newSlice in "+name, c.Pos(call), why,
+				name+" builds a slice with the raw constructor newSlice, which does not convert elements to the slice's element type: untyped constants stored this way keep the untyped tag (use NewSlice)")
+			return true
+		})
+	}
+	if n == 0 {
+		r.undecided("newSlice", "-", "no call of newSlice found")
 	}
 }
